@@ -60,7 +60,7 @@ def main():
 
   cache = os.environ.get("VERIF_CACHE", os.path.join(here, ".cache"))
   build = job.get("build", "rel")
-  seams.install(os.path.join(cache, "wp-" + build), debug=(build == "dbg"))
+  seams.install(os.path.join(cache, "wp-" + build + "-" + os.environ.get("VERIF_SRC_HASH", "nohash")), debug=(build == "dbg"))
   import warnings
 
   warnings.filterwarnings("ignore")
